@@ -181,7 +181,7 @@ def run(run, P, units=None):
                               'for byte 0x%02x%s the measuring loop counts %d byte(s) but the filling loop stores %d (%d byte values differ): the string is allocated from the '
                               'count, so the fill %s' % (c, " ('%s')" % chr(c) if 32 <= c < 127 else '', mt[c], ft[c], len(bad),
                                                       'writes behind the allocation' if ft[c] > mt[c] else 'leaves the tail of the string unset'), [])
-    run.require(npairs >= (2 if not units else 1) or run.fixture_mode, 'R-SIZE-FILL: fewer than 2 measure/fill loop pairs found (expected coap_get_query, coap_get_uri_path)')
+    run.require_count(npairs >= (2 if not units else 1) or run.fixture_mode, 'R-SIZE-FILL: fewer than 2 measure/fill loop pairs found (expected coap_get_query, coap_get_uri_path)')
 
 
 def run_separator(run, P, units=None):
@@ -228,4 +228,4 @@ def run_separator(run, P, units=None):
                             run.violation('R-SIZE-FILL', f['name'], ev['loc'], 'separator-decided-by-cursor-position',
                                           'the separator is written under the condition %s, which reads the output cursor: after an empty first segment the cursor has not moved, '
                                           'no separator is written although the measuring pass counted one, and the string ends in an uninitialised byte' % reads[0], [])
-    run.require(n >= (2 if not units else 1) or run.fixture_mode, 'R-SIZE-FILL(separators): fewer than 2 separator stores in the outer loop of a fill loop found')
+    run.require_count(n >= (2 if not units else 1) or run.fixture_mode, 'R-SIZE-FILL(separators): fewer than 2 separator stores in the outer loop of a fill loop found')
